@@ -196,6 +196,12 @@ func runFaultHistoryWith(ctx0 context.Context, r *vkit.Run, se *stackEnv, stack 
 					c03Witness{Stack: stack, History: hi, Step: step, Op: op.String(), Site: pl.hitSite, K: k, Sites: pl.sites, Result: res.Kind, Diff: errs[0], Tail: tail()})
 				return
 			}
+			if miss := missingReferencedParts(ctx0, se); len(miss) > 0 {
+				r.Violation(fmt.Sprintf("referenced-part-missing-after-fault:%s:%s", op.Kind, pl.hitSite), fmt.Sprintf("%s failed after injected fault at %s; afterwards %d part row(s) (objects or pending uploads) name a part their store no longer holds: %s", op, pl.hitSite, len(miss), miss[0]),
+					c03Witness{Stack: stack, History: hi, Step: step, Op: op.String(), Site: pl.hitSite, K: k, Sites: pl.sites, Result: res.Kind, Diff: strings.Join(miss, "; "), Tail: tail()})
+				return
+			}
+			r.Count("referenced_parts_checked_after_fault", 1)
 			added, removed := diffLists(filesBefore, dirListing(se.env))
 			if len(added)+len(removed) > 0 {
 				r.Count("part_dir_changed_after_failed_op(observation)", 1)
@@ -224,6 +230,7 @@ func runFaultHistoryWith(ctx0 context.Context, r *vkit.Run, se *stackEnv, stack 
 func scriptedSharingHistory(ctx context.Context, r *vkit.Run, se *stackEnv, stack string, rng *vkit.Rand) {
 	b := "fb-script"
 	x, y, z := rng.Bytes(1500), rng.Bytes(900), rng.Bytes(2100)
+	w1, w2 := rng.Bytes(1300), rng.Bytes(700)
 	var uploadID string
 	script := []func(m *vmodel.Model) *vmodel.Op{
 		func(*vmodel.Model) *vmodel.Op { return &vmodel.Op{Kind: vmodel.OpCreateBucket, Bucket: b} },
@@ -257,6 +264,21 @@ func scriptedSharingHistory(ctx context.Context, r *vkit.Run, se *stackEnv, stac
 		func(*vmodel.Model) *vmodel.Op { return &vmodel.Op{Kind: vmodel.OpDelete, Bucket: b, Key: "k1"} },
 		func(*vmodel.Model) *vmodel.Op {
 			return &vmodel.Op{Kind: vmodel.OpMultiDelete, Bucket: b, Entries: []vmodel.DelEntry{{Key: "k2"}, {Key: "k3"}}}
+		},
+		// an upload whose parts nobody else holds is aborted: every fault of the abort must leave
+		// the upload complete-able (part rows AND part data still there)
+		func(*vmodel.Model) *vmodel.Op { return &vmodel.Op{Kind: vmodel.OpMpuCreate, Bucket: b, Key: "k4"} },
+		func(m *vmodel.Model) *vmodel.Op {
+			for id := range m.Buckets[b].Uploads {
+				uploadID = id
+			}
+			return &vmodel.Op{Kind: vmodel.OpMpuPart, Bucket: b, Key: "k4", UploadID: uploadID, PartNumber: 1, Body: w1}
+		},
+		func(*vmodel.Model) *vmodel.Op {
+			return &vmodel.Op{Kind: vmodel.OpMpuPart, Bucket: b, Key: "k4", UploadID: uploadID, PartNumber: 2, Body: w2}
+		},
+		func(*vmodel.Model) *vmodel.Op {
+			return &vmodel.Op{Kind: vmodel.OpMpuAbort, Bucket: b, Key: "k4", UploadID: uploadID}
 		},
 	}
 	r.Count("scripted_sharing_histories", 1)
